@@ -141,9 +141,8 @@ impl RingApp {
                 for (i, a) in v.iter_mut().enumerate() {
                     out.extend(a.log.drain(..).map(|e| (i, e)));
                 }
-                out.sort_by_key(|(_, e)| match e {
-                    TapEv::Ask { t, .. } | TapEv::Reply { t, .. } | TapEv::Timeout { t, .. } => *t,
-                });
+                // global call order (several applications may be called within one poll, at the same time stamp)
+                out.sort_by_key(|(_, e)| e.seq());
                 out
             }
         }
@@ -174,6 +173,49 @@ impl Device for Responder {
     }
     fn on_frame(&mut self, _now: Us, _sender: usize, tel: &RTel, _raw: &[u8], rng: &mut Rng) -> Option<(Us, Vec<u8>)> {
         if self.mode == 1 {
+            return None;
+        }
+        if self.mode == 2 {
+            // hostile peer: every kind of wrong answer
+            if let RTel::Data { da, sa, fc, .. } = tel {
+                if *da != self.addr || !fc.is_req() || !fc.expects_reply() {
+                    return None;
+                }
+                let delay = bits_to_us(self.baud, self.tsdr_bits + rng.below(20));
+                let late = bits_to_us(self.baud, 400 + rng.below(2000));
+                if fc.req_code() == Some(crate::refcodec::REQ_FDL_STATUS) {
+                    // towards GAP polls it is a plain slave (or mute): it must not be taken for a master
+                    if rng.bool() {
+                        return None;
+                    }
+                    let r = RTel::Data { da: *sa, sa: self.addr, dsap: None, ssap: None, fc: RFc::Resp { state: 0, status: 0 }, pdu: vec![] };
+                    return Some((delay, crate::refcodec::encode(&r).unwrap()));
+                }
+                let data = |sa_: u8, da_: u8, fc_: RFc, rng: &mut Rng| {
+                    crate::refcodec::encode(&RTel::Data {
+                        da: da_,
+                        sa: sa_,
+                        dsap: None,
+                        ssap: None,
+                        fc: fc_,
+                        pdu: rng.bytes(rng.clone().usize(8)),
+                    })
+                    .unwrap()
+                };
+                let ok = RFc::Resp { state: 0, status: 8 };
+                return match rng.usize(10) {
+                    0 => None,
+                    1 => Some((delay, data(self.addr, *sa, ok, rng))),
+                    2 => Some((delay, vec![crate::refcodec::SC])),
+                    3 => Some((late, data(self.addr, *sa, ok, rng))),
+                    4 => Some((delay, data((self.addr + 1) % 126, *sa, ok, rng))), // foreign source
+                    5 => Some((delay, data(self.addr, (*sa + 1) % 126, ok, rng))), // foreign destination
+                    6 => Some((delay, data(self.addr, *sa, RFc::Req { fcv: false, fcb: false, code: crate::refcodec::REQ_SRD_LOW }, rng))),
+                    7 => Some((delay, vec![crate::refcodec::SD4, *sa, self.addr])), // a token instead
+                    8 => Some((delay, rng.bytes(1 + rng.clone().usize(6)))),         // garbage
+                    _ => Some((delay, data(self.addr, *sa, RFc::Resp { state: rng.u8() & 3, status: *rng.pick(&crate::refcodec::RESP_STATUS) }, rng))),
+                };
+            }
             return None;
         }
         if let RTel::Data { da, sa, fc, .. } = tel {
